@@ -566,7 +566,9 @@ def judge(spec, results):
             if oc[1] == 'CRASH':
                 cc = r.crash_class() or 'NO_RESULT'
                 site = r.crash_site()
-                if cc in ('TIMEOUT', 'DEADLOCK', 'BUDGET'):
+                if cc == 'SLOW':
+                    pass
+                elif cc in ('TIMEOUT', 'DEADLOCK', 'BUDGET'):
                     add('HANG', '%s %s' % (oc[2], desc), tag, site)
                 elif cc in ('UNSUPPORTED', 'HARNESS'):
                     V.append({'prop': 'H', 'cls': 'H_' + cc, 'detail': str(r.fatal), 'sig': 'H:' + cc, 'tag': tag})
